@@ -86,3 +86,30 @@ def run(case, ctx):
     return {"nontrivial": changed or boundary, "fails": fails,
             "shape": (op, len(set(n[0] for n in case["seq"]["notes"])), changed, boundary, case["seq"]["start"]),
             "observed": {"dur_before": before["dur"], "dur_after": after["dur"]}}
+
+
+def _corpus_body(rng, k):
+    from vmon import corpus
+    desc, w = corpus.window(rng, min_len=48, max_len=400)
+    op = rng.choice(["pad", "cutoff", "scale", "scaleq", "chan"])
+    desc["op"] = op
+    before = obs(w)
+    if op == "pad":
+        w.pad(rng.choice([0, before["dur"], before["dur"] + 1, rng.randrange(0, 900)]))
+    elif op == "cutoff":
+        m = rng.randint(1, 48)
+        w.cutoff(m, rng.randint(1, m))
+    elif op == "scale":
+        w.scale(rng.randint(1, 8), quantise_afterwards=False)
+    elif op == "scaleq":
+        w.quantise_and_normalise()
+        w.scale(rng.choice([1, 2, 3]))
+    else:
+        w.set_channel(rng.randrange(0, 16))
+    after = obs(w)
+    return desc, after["events"] != before["events"] or after["dur"] != before["dur"]
+
+
+def phases(tier):
+    from vmon import corpus
+    return [("corpus", corpus.phase(300, 15000, _corpus_body))]
